@@ -135,10 +135,7 @@ def _kernel_case(item):
             ris.append(RD.RI(text, reads, writes, wb=_wb_set(isa, text, writes), tag=text.split()[0]))
         parser, kernel = dgfam.parsed_kernel(isa, [r.text for r in ris])
         sem.add_semantics(kernel)
-        g = drive.KernelDG.__new__(drive.KernelDG)
-        g.timed_out = False
-        g.kernel, g.parser, g.model, g.arch_sem = kernel, parser, mm, sem
-        g.dg = g.create_DG(kernel, flags)
+        g = drive.graph_only(kernel, parser, mm, sem, flags)
         for r, k in zip(ris, kernel):
             r.lat_exec = float(k.latency_wo_load if k.latency_wo_load is not None else k.latency)
             r.lat = float(k.latency)
